@@ -1296,6 +1296,15 @@ def counter_init(ctx):
                 fresh = oo[0] == "call" and any("ConnIdCounter" in x and x.endswith("::new") for x in
                                                 [strip_generics(y) for y in callee_paths(oo[2])])
             stores.append((b, fresh))
+    # `self.counter.insert(ConnIdCounter::new(..))` / `.replace(..)` store a new counter as well
+    for b, t in fa.calls():
+        nm = {strip_generics(x).rsplit("::", 1)[-1] for x in callee_paths(t)}
+        if nm & {"insert", "replace"} and len(t["args"]) == 2 and any("option::Option" in x for x in callee_paths(t)):
+            rap = E.ap_operand(fa, t["args"][0])
+            oo = fa.origin(t["args"][1])
+            if rap is not None and rap.proj[-1:] == ("counter",) and oo[0] == "call" and \
+                    any("ConnIdCounter" in x and x.endswith("::new") for x in [strip_generics(y) for y in callee_paths(oo[2])]):
+                stores.append((b, True))
     rets = fa.return_blocks()
     fresh_blocks = {b for b, fr in stores if fr}
     from flow import must_pass
